@@ -27,6 +27,8 @@ NEIGHBOURS = [{"from": "C11", "limit": 400, "why": "the in-progress marks are re
 
 
 def cases(tier, rng):
+    for c in directed.deep_nesting_cases():
+        yield "directed-deep-nesting", c
     for c in directed.method_contracts_during_reentry_cases():
         yield "directed-method-contracts-during-reentry", c
     thorough = tier == "thorough"
